@@ -21,13 +21,18 @@
 // ctr_drbg.go, hmac_drbg.go, common.go: every `gm` branch), so for these
 // points the model is anchored on the library, NOT on an independent text.
 // A model/library agreement in GM mode therefore only shows that the library
-// is self-consistent with my reading of it. Deviations, complete list:
+// is self-consistent with my reading of it. Deviations, complete list (G1 is
+// the only one that changes a computed value; the code has exactly two GM
+// branches: the G1 order in Reseed and the one-block cap in MaxRequest):
 //
 //	G1 Hash reseed: seed_material = 0x01 || entropy_input || V || additional_input
 //	   (NIST 10.1.1.3 step 1: 0x01 || V || entropy_input || additional_input).
 //	   [hash_drbg.go:103-109]
 //	G2 Hash generate: returned_bits = leftmost(Hash(V), n), ONE hash block, no
-//	   Hashgen counter loop; n <= outlen (32 bytes for SM3).
+//	   Hashgen counter loop; n <= outlen (32 bytes for SM3). NIST Hashgen with
+//	   m = 1 computes exactly leftmost(Hash(V), n), so like G3 this is purely a
+//	   smaller max_number_of_bits_per_request and needs no code branch here
+//	   (checked: forcing the NIST path in GM mode changes no output).
 //	   [hash_drbg.go:166,182-185]
 //	G3 CTR generate: at most ONE block cipher output block per request
 //	   (n <= blocklen = 16 bytes for SM4). The algorithm itself is the NIST one
@@ -176,11 +181,7 @@ func (d *DRBG) Generate(n int, additional []byte) []byte {
 			w := d.hash([]byte{0x02}, d.V, additional)
 			d.V = d.addMod(d.V, w)
 		}
-		if d.P.GM { // G2
-			out = d.hash(d.V)[:n]
-		} else {
-			out = d.hashgen(n)
-		}
+		out = d.hashgen(n) // GM (G2): n <= outlen, so this is leftmost(Hash(V), n)
 		h := d.hash([]byte{0x03}, d.V)
 		rc := new(big.Int).SetUint64(d.ReseedCounter).Bytes()
 		d.V = d.addMod(d.V, h, d.C, rc)
